@@ -27,7 +27,7 @@ URLS = ["http://h1.example/debian", "http://h1.example/debian-security", "http:/
 CODENAMES = ["stable", "testing"]
 FLATS = ["./", "flat/"]
 COMPS = ["main", "contrib", "non-free"]
-ARCHES = ["amd64", "i386", "arm64"]
+ARCHES = ["amd64", "i386", "arm64", "hurd-i386", "kfreebsd-amd64", "x32", "s390x"]   # incl. hyphenated ports architectures
 
 
 def gen_line(rng, flat_urls):
@@ -147,11 +147,63 @@ def check_lines(chk, lines, default_arch):
     return real
 
 
+def spec_line_tuples(line, default_arch):
+    """What ONE deb line specifies on its own, read off the documented grammar (independent of apt_mirror.config):
+    deb | deb-<arch> | deb-src, optional [arch=a,b,src by-hash=..] block, URL, codename list, components."""
+    head, _, rest = line.strip().partition(" ")
+    rest = rest.strip()
+    arches, source = [], False
+    if head == "deb-src":
+        source = True
+    elif head.startswith("deb-"):
+        arches.append(head[len("deb-"):])
+    if rest.startswith("["):
+        block, _, rest = rest[1:].partition("]")
+        for opt in block.split():
+            key, _, val = opt.partition("=")
+            if key == "arch":
+                for a in val.split(","):
+                    if a == "src":
+                        source = True
+                    elif a not in arches:
+                        arches.append(a)
+    words = rest.split()
+    url, cns, comps = words[0].rstrip("/"), words[1].split(","), words[2:]
+    if not arches and not source:
+        arches = [default_arch]
+    out = set()
+    for cn in cns:
+        if cn.endswith("/"):
+            d = cn.rstrip("/") or "."
+            d = "." if d in (".", "./") else d
+            if arches:
+                out.add((url, d, "", "binaries"))
+            if source:
+                out.add((url, d, "", "source"))
+        else:
+            for c in comps:
+                for a in arches:
+                    out.add((url, cn, c, "arch:" + a))
+                if source:
+                    out.add((url, cn, c, "source"))
+    return out
+
+
 def monitor_union(chk, lines, default_arch, tier):
     whole = check_lines(chk, lines, default_arch)
     if whole is None:
         return
     t_all = tuples_of(whole)
+    # the union of what each line specifies on its own, by the independent line-level reference (this also makes the
+    # deb-<arch> and [arch=...] spellings, and URLs with and without trailing slashes, interchangeable by construction)
+    spec = set()
+    for ln in lines:
+        spec |= spec_line_tuples(ln, default_arch)
+    if t_all != spec:
+        extra = sorted(t_all - spec)[:3]
+        missing = sorted(spec - t_all)[:3]
+        chk.violation("union:differs-from-line-spec", {"lines": lines},
+                      f"tuples to mirror != union of the lines' own meaning: extra={extra} missing={missing}")
     union = set()
     for ln in lines:
         cfg, err = real_config([ln])
